@@ -267,3 +267,15 @@ package raftpb
 //@ ensures m == nil ==> result == 0
 //@ free loop 1 invariant n >= 0 && n < 4611686018427387904
 //@ loop 1 invariant n == sumvisited(m.Addresses, waddr) && (forall k uint64 :: visited(k) ==> k in m.Addresses)
+
+// ---------------------------------------------------------------- C02 / C11: which of the handed-out entries are applied
+// Of a contiguous run of committed entries, exactly the suffix above the applied index is applied: never an entry at or
+// below it (no re-application), starting right above it (no gap -- a hole is fail-stop), up to the run's last entry
+// (nothing dropped). The unsigned arithmetic wraps to 0 when the run starts right above the applied index.
+//@ func EntriesToApply [C02 C11 C08]
+//@ requires applied < 18446744073709551615
+//@ requires forall i int :: 0 <= i && i < len(entries) ==> entries[i].Index == entries[0].Index + i
+//@ ensures forall i int :: 0 <= i && i < len(result) ==> result[i].Index > applied
+//@ ensures len(result) > 0 ==> result[0].Index == applied + 1 && result[len(result) - 1].Index == old(entries[len(entries) - 1].Index)
+//@ ensures len(entries) > 0 && entries[len(entries) - 1].Index > applied ==> len(result) > 0
+//@ ensures len(result) > 0 ==> ptr(result) == ptr(entries) + (len(entries) - len(result)) && len(result) <= len(entries)
